@@ -12,7 +12,7 @@ import (
 func init() {
 	register(&propInfo{
 		ID:          "C20",
-		Explanation: "Typestate, lockset and path analysis of the httpio reader side channel: (R20.1) the channel that signals 'stream consumed' is closed only inside sync.Once-guarded closures of one Once object, although Read and Close may be invoked any number of times; (R20.2) upload handler and parameter decoder each perform lookup-or-create of the hand-off channel inside one critical section of the same mutex, keyed by the parsed id, create only on the not-found branch, and meet on that channel with opposite directions, each inside a select that also watches its context; (R20.3) the encoder draws a fresh id on every invocation (inside the encoder closure), uploads the caller's reader to a URL derived from that id and returns that same id as the parameter; (R20.4) the upload handler reports success only after the consumed-signal was received, and no path falls off the end (implicit 200) without it. R20.1 also requires every use of the wrapped body outside the signalling Read/Close to raise the signal itself; (R20.7) the inner read stands behind a test of a wrapper field that every failing read sets, so end-of-file is reported again without touching the body that net/http closes once the signal is raised. (R20.8) a registered parameter encoder runs once per argument, before the first transport send; (R20.9) a counting limit in the reader path is given back on every path. (R20.10) the encoder does nothing with the caller's reader except hand it to the upload request.",
+		Explanation: "Typestate, lockset and path analysis of the httpio reader side channel: (R20.1) the channel that signals 'stream consumed' is closed only inside sync.Once-guarded closures of one Once object, although Read and Close may be invoked any number of times; (R20.2) upload handler and parameter decoder each perform lookup-or-create of the hand-off channel inside one critical section of the same mutex, keyed by the parsed id, create only on the not-found branch, and meet on that channel with opposite directions, each inside a select that also watches its context; (R20.3) the encoder draws a fresh id on every invocation (inside the encoder closure), uploads the caller's reader to a URL derived from that id and returns that same id as the parameter; (R20.4) the upload handler reports success only after the consumed-signal was received, and no path falls off the end (implicit 200) without it. R20.1 also requires every use of the wrapped body outside the signalling Read/Close to raise the signal itself; (R20.7) the inner read stands behind a test of a wrapper field that every failing read sets, so end-of-file is reported again without touching the body that net/http closes once the signal is raised. (R20.8) a registered parameter encoder runs once per argument, before the first transport send; (R20.9) a counting limit in the reader path is given back on every path. (R20.10) the encoder does nothing with the caller's reader except hand it to the upload request. (R20.11) the upload handler never reads the request body itself.",
 		NotDecided:  "Byte-exactness of the stream (values through net/http), arrival-order schedules themselves (only the symmetric locked rendezvous that makes both orders work), and the upload handler carrying on after a malformed id (observation recorded in DESIGN.md).",
 		Assumptions: []string{"sync.Once.Do runs its argument at most once per Once object", "the wrapper type is the struct in httpio embedding io.ReadCloser with a chan struct{} field"},
 		Run:         runC20,
@@ -139,6 +139,8 @@ func runC20(c *Ctx) {
 	c.encodersRunOnce("R20.8")
 	c.ruleOpt("R20.9", "a counting limit taken in the reader path is given back on every path out of the function")
 	c.countersBalanced("R20.9", p.Httpio.Pkg)
+	c.ruleOpt("R20.11", "the upload request ends when the handler is done with the stream: the upload handler never reads the request body itself (draining what the handler left unread never ends for an unbounded source)")
+	c.uploadBodyOnlyThroughWrapper("R20.11")
 	c.rule("R20.4", "the upload handler answers 200 (explicitly or implicitly) only after receiving the consumed signal")
 	if !c.need("R20.1", "httpio package", p.Httpio != nil) {
 		return
@@ -1134,5 +1136,60 @@ func (c *Ctx) readerUntouched(rule string, encf *ssa.Function) {
 		c.bad(rule, construct, c.ipos(bad), "the encoder operates on the caller's reader itself (reads, seeks or wraps it) before the upload: measuring a seekable reader and rewinding it to its start makes the handler see bytes the caller had already consumed — the stream is no longer exactly the caller's byte sequence")
 	} else {
 		c.ok(rule, construct, c.ipos(rd.(ssa.Instruction)), "only passed on as the body of the upload request")
+	}
+}
+
+// uploadBodyOnlyThroughWrapper: R20.11. In the reader package, the body of an *http.Request is never
+// the source of a read (io.Copy, io.ReadAll, Read …) outside the wrapper type: it is only wrapped and
+// handed over.
+func (c *Ctx) uploadBodyOnlyThroughWrapper(rule string) {
+	p := c.P
+	if p.Httpio == nil {
+		return
+	}
+	isReqBody := func(v ssa.Value) bool {
+		f := loadedField(v)
+		return f != nil && f.Name() == "Body" && f.Pkg() != nil && f.Pkg().Path() == "net/http" && isNamed(derefType(v, f), "net/http", "Request")
+	}
+	n := 0
+	for _, fn := range p.Funcs {
+		if pkgOf(fn) != p.Httpio.Pkg {
+			continue
+		}
+		allInstrsRaw(fn, func(in ssa.Instruction) {
+			ci, ok := in.(*ssa.Call)
+			if !ok {
+				return
+			}
+			reads := false
+			switch calleeName(ci) {
+			case "io.Copy", "io.CopyN", "io.CopyBuffer", "io.ReadAll", "io/ioutil.ReadAll", "io.ReadFull", "io.ReadAtLeast", "(*bytes.Buffer).ReadFrom":
+				reads = true
+			}
+			if cm := ci.Common(); cm.IsInvoke() && cm.Method.Name() == "Read" {
+				reads = true
+			}
+			if !reads {
+				return
+			}
+			var src []ssa.Value
+			if ci.Common().IsInvoke() {
+				src = append(src, ci.Common().Value)
+			}
+			src = append(src, ci.Common().Args...)
+			for _, a := range src {
+				if c.dependsOn(a, isReqBody, 0, map[ssa.Value]bool{}) {
+					// the wrapper's own Read delegating to the embedded body is the one legitimate reader
+					if recv := fn.Signature.Recv(); recv != nil && fn.Name() == "Read" {
+						continue
+					}
+					n++
+					c.bad(rule, fmt.Sprintf("%s: read of the upload request's body", fname(fn)), c.ipos(in), "the upload handler reads the request body itself (e.g. to drain what the RPC handler left unread): for a source that keeps producing this never ends, so the upload — and the caller's goroutine feeding it — outlives the handler that closed the stream")
+				}
+			}
+		})
+	}
+	if n == 0 {
+		c.ok(rule, "upload request body", "-", "only wrapped and handed over")
 	}
 }
